@@ -165,3 +165,69 @@ def basis_ders_on_span(p, K, k, u, order, cx):
             row.append(float(core.subst(f, t, core.SymReal.const(uq)).cval()))
         out.append(row)
     return out
+
+
+class DerivOracle:
+    """Formal (mixed partial) derivatives of the position function given by the Cox-de Boor *definition*
+    on the polynomial piece that contains the parameter (right-continuous at knots).  Works symbolically
+    (parameters are the harness' own variables) and in float replay (private variables, exact Fractions)."""
+
+    def __init__(self, cx, degs, Ks, sizes, P, W, prm):
+        from . import core
+        self.core = core
+        self.cx = cx
+        self.prm = list(prm)
+        nd = len(degs)
+        spans = [span_of(degs[d], Ks[d], prm[d], cx) for d in range(nd)]
+        self.spans = spans
+        if cx.symbolic:
+            self.vars = list(prm)
+            Kx = Ks
+            lift = lambda x: x
+            hc = cx
+        else:
+            self.vars = [core.SymReal(core.RF(core.Poly.var(core.VARS.get('t!%d' % d)))) for d in range(nd)]
+            c = lambda x: core.SymReal.const(Fraction(x))
+            Kx = [[c(k) for k in K] for K in Ks]
+            lift = c
+            hc = None
+        Ns = [basis_on_span(degs[d], Kx[d], spans[d], self.vars[d], hc) for d in range(nd)]
+        dim = len(P[0])
+        num = [0] * dim
+        den = 0
+
+        def rec(d, idxs, coef):
+            nonlocal num, den
+            if d == nd:
+                if nd == 1:
+                    flat = idxs[0]
+                elif nd == 2:
+                    flat = idxs[1] + sizes[1] * idxs[0]
+                else:
+                    flat = idxs[1] + sizes[1] * (idxs[0] + sizes[0] * idxs[2])
+                b = coef
+                if W is not None:
+                    b = b * lift(W[flat])
+                    den = den + b
+                num = [num[k] + b * lift(P[flat][k]) for k in range(dim)]
+                return
+            for i, Ni in Ns[d].items():
+                rec(d + 1, idxs + [i], coef * Ni)
+        rec(0, [], 1)
+        self.pos = num if W is None else [x / den for x in num]
+
+    def D(self, *orders):
+        """vector of the mixed partial derivative d^k1/du^k1 d^k2/dv^k2 ... of the position"""
+        core = self.core
+        out = []
+        for comp in self.pos:
+            f = core.sym(comp)
+            for v, k in zip(self.vars, orders):
+                if k:
+                    f = core.diff(f, v, k)
+            if not self.cx.symbolic:
+                for v, val in zip(self.vars, self.prm):
+                    f = core.subst(f, v, core.SymReal.const(Fraction(val)))
+                f = float(f.cval())
+            out.append(f)
+        return out
